@@ -295,7 +295,9 @@ def s1_discriminant():
              ('dense_d', [None, None, None, -4, None, -2]), ('dense_e', [7, None, 9, 1, None, 3])]
     for dtag, pat in dense:
         p6 = [None if x is None else lit(x) for x in pat]
-        for rs in (None, ['u8'], ['i64'], ['C', 'i16']):
+        for rs in (None, ['u8'], ['i64'], ['C', 'i16'], ['i32'], ['i8'], ['u16'], ['isize'], ['i128']):
+            if rs not in (None, ['u8'], ['i64'], ['C', 'i16']) and dtag not in ('dense_d', 'dense_a'):
+                continue
             if rs and any(r.startswith('u') for r in rs) and any(x is not None and x < 0 for x in pat):
                 continue
             rtag = 'none' if rs is None else '_'.join(rs)
@@ -453,6 +455,16 @@ def s1_stage_a():
                                       generics([('Lt', 'a', []), tparam('T')], ([['T', ':', "'a"]], False)))
     yield 'stagea/unit_where', item(('Struct', 'Unit', []), 'S', [dw(['PartialEq']), dw(['incomparable'])], generics([tparam('T')], ([['T', ':', 'Copy']], False)))
     yield 'stagea/union', item(('Union', [field('a', ['T'], [('Other', P('doc'), ['=', '"u"'])], ['pub']), field('b', ['u8'])]), 'U', [dw(['Clone', 'Copy']), repr_attr('C')], GT, ['pub'])
+    # stage-A ERRORS (the attribute macro re-emits the item stripped of every derive_where attribute): one per item kind, with
+    # derive_where attributes at item, variant and field level, so that a level that is not stripped shows in rustc's output
+    bad = cr(('EPath', (True, ['derive_where'])))
+    yield 'stagea/err_enum_levels', en('E', [variant('A', 'Named', named(2, [['T'], ['u8']], [[sub(skip_meta('skip', ['Debug']))], []]), [sub('default')]),
+                                             variant('B', 'Unnamed', unnamed(1, [['T']], [[sub('skip')]]), [sub(skip_meta('skip_inner', ['Debug']))]),
+                                             variant('C', 'Unit', [], [('Other', P('doc'), ['=', '"c"'])])], [bad, dw(['Debug', 'Default'])])
+    yield 'stagea/err_enum_variant_only', en('E', [variant('A', 'Unnamed', unnamed(1, [['T']])), variant('B', 'Unit', [], [sub('incomparable')])], [bad, dw(['PartialEq'])])
+    yield 'stagea/err_struct_levels', st('S', named(2, [['T'], ['u8']], [[sub('skip')], [sub(skip_meta('skip', ['Debug']))]]), [dw(['Debug']), bad, dw([skip_meta('skip_inner', ['Debug'])])])
+    yield 'stagea/err_tuple_levels', st('S', unnamed(2, [['T'], ['u8']], [[sub('skip')], []]), [bad, dw(['Debug'])], 'Unnamed')
+    yield 'stagea/err_union_levels', item(('Union', [field('a', ['T'], [sub('skip')], []), field('b', ['u8'])]), 'U', [bad, dw(['Clone', 'Copy'])], GT)
     yield 'stagea/error_keeps_attrs', st('S', named(2, [['T'], ['u8']], [[sub('skip'), ('Other', P('doc'), ['=', '"x"'])], [sub(skip_meta('skip', ['Debug']))]]), [dw(['Foo']), ('Other', P('allow'), ['(', 'dead_code', ')'])])
 
 
